@@ -74,7 +74,18 @@ def rowid_only(v, suite, ops, rnd, tier, h, d):
                 cand.update(x for x in (r_ - 1, r_ + 1) if I64MIN <= x <= I64MAX)
             cand.update([0, -1, I64MAX, I64MIN])
             lists = [[alias], [alias, alias], []] + ([[ipk[0]], [ipk[0], alias]] if len(ipk) == 1 else [])
+            # the row found has the values a full scan reports: every column, compared with SQLite's row (columns added by
+            # ALTER TABLE included: a lookup must complete short rows from the defaults just like a scan)
+            allcols = [c["name"] for c in t["columns"]]
             for rid in sorted(cand):
+                if rid in pres:
+                    bops.append({"op": "select_rowid", "id": nid, "table": tname, "rowid": str(rid), "cols": allcols})
+                    expect[nid] = (s["name"], tname, rid, allcols, "values")
+                    nid += 1
+                    if len(ipk) == 1:
+                        bops.append({"op": "pk_select", "id": nid, "table": tname, "key": [values.to_jval(("i", rid))], "cols": allcols})
+                        expect[nid] = (s["name"], tname, rid, allcols, "values")
+                        nid += 1
                 for cols in lists:
                     bops.append({"op": "select_rowid", "id": nid, "table": tname, "rowid": str(rid), "cols": cols})
                     expect[nid] = (s["name"], tname, rid, cols, rid in pres)
@@ -98,10 +109,15 @@ def rowid_only(v, suite, ops, rnd, tier, h, d):
         got = [tuple(values.from_jval(j) for j in row) for row in r_.get("rows") or []]
         if r_.get("op") == "select_rowid" and not cols:
             got = [()] if r_.get("found") else []
-        want = [tuple(("i", rid) for _ in cols)] if there else []
+        if there == "values":
+            want = bf.sqlite_rows(next(s_["path"] for s_ in suite if s_["name"] == name),
+                                  "SELECT %s FROM %s WHERE %s = ?" % (", ".join(bf._q(c_) for c_ in cols), bf._q(tname), bf.rowid_alias(next(s_ for s_ in suite if s_["name"] == name)["desc"]["tables"][tname])), (rid,))
+            want = [tuple(r2) for r2 in want]
+        else:
+            want = [tuple(("i", rid) for _ in cols)] if there else []
         if r_.get("err") or r_.get("panic"):
             got = [(("t", b"error: " + str(r_.get("err") or r_.get("panic")).encode()),)]
-        pairs.append(({"cls": "rowid-only/%s/%s/%s" % (name, tname, "present" if there else "absent"), "what": "%s(%s, %d, %s)" % (r_.get("op"), tname, rid, cols),
+        pairs.append(({"cls": "%s/%s/%s/%s" % ("rowid-only" if there != "values" else "values", name, tname, "present" if there else "absent"), "what": "%s(%s, %d, %s)" % (r_.get("op"), tname, rid, cols),
                        "sql": "the row with that rowid, if it exists"}, got, want))
         v.nontrivial((name, tname, rid, tuple(cols), r_.get("op")))
     bf.rows_events(v, "C04", pairs, "c04-rowid-only")
